@@ -232,6 +232,28 @@ func DrawScript(t *rapid.T, p Profile) Script {
 	}
 	midGOP := rapid.IntRange(0, 2).Draw(t, "midGOP") == 0 && leadSpec.IsVideo()
 
+	// the wall clock the NTP values come from is stepped 0-2 times per script
+	type ntpJump struct {
+		at float64
+		d  int64
+	}
+	var ntpJumps []ntpJump
+	streamSec := float64(nLead) * float64(frameTicks) / float64(leadRate)
+	for k := rapid.SampledFrom([]int{0, 0, 1, 2}).Draw(t, "ntpJumps"); k > 0; k-- {
+		ntpJumps = append(ntpJumps, ntpJump{
+			at: streamSec * float64(rapid.IntRange(5, 95).Draw(t, "ntpJumpAt")) / 100,
+			d:  int64(rapid.SampledFrom([]int{-700, -40, 15, 120, 500, 3000}).Draw(t, "ntpJumpMs")) * 1_000_000,
+		})
+	}
+	ntpStep := func(mediaSec float64) int64 {
+		var sh int64
+		for _, j := range ntpJumps {
+			if mediaSec >= j.at {
+				sh += j.d
+			}
+		}
+		return sh
+	}
 	var all [][]timedOp
 	// --- video / leading timeline ---------------------------------------------------------------
 	for ti, spec := range cfg.Tracks {
@@ -364,7 +386,7 @@ func DrawScript(t *rapid.T, p Profile) Script {
 					op.TS = gopBase + disp*frameTicks
 					op.Tmpl = 1 + (int(2*disp)<<2 | kind)
 				}
-				op.NTP = ntpBase + (op.TS-start)*1_000_000_000/rate + rapid.Int64Range(-3_000_000, 3_000_000).Draw(t, "skew")
+				op.NTP = ntpBase + (op.TS-start)*1_000_000_000/rate + rapid.Int64Range(-3_000_000, 3_000_000).Draw(t, "skew") + ntpStep(float64(op.TS-start)/float64(rate))
 				ops = append(ops, timedOp{op: op, media: float64(ts-start) / float64(rate)})
 				if op.Kind == KindParamOnly || op.Kind == KindSEI {
 					continue // carries no picture: does not advance time
@@ -437,7 +459,7 @@ func DrawScript(t *rapid.T, p Profile) Script {
 				if !p.ConstantLL && durMode == "irregular" && rapid.IntRange(0, 9).Draw(t, "agap") == 0 {
 					adv += rapid.Int64Range(1, rate/2).Draw(t, "gap")
 				}
-				op.NTP = ntpBase + int64(media*1e9) + rapid.Int64Range(-3_000_000, 3_000_000).Draw(t, "askew")
+				op.NTP = ntpBase + int64(media*1e9) + rapid.Int64Range(-3_000_000, 3_000_000).Draw(t, "askew") + ntpStep(media)
 				ops = append(ops, timedOp{op: op, media: media})
 				ts += adv
 				count++
